@@ -11,7 +11,7 @@ all-ones sizes of every width, sizes near 2^56, 0x00 first bytes); configuration
 script = interleaving of next() and try_recover() (try_recover mostly right after an error, sometimes at arbitrary points) over a scripted source with short reads and optionally an injected io::Error(Other, \"inj-k\") — once, or (a third of the injections) on every read from then on. \
 Oracle: no call panics; successful items <= 4·len + 64 (calls capped at 8× that: exceeding = non-termination); once next() returns None with the source exhausted, three further calls return None; try_recover fails only with UnexpectedEOF/ReadError \
 and never moves backwards (first non-End item after it has a larger offset than the last before it); the first Err after an injected source error is ReadError carrying kind Other and the injected message, with no None before it; the first element emitted after a transient failure lies behind the last one emitted before it (nothing is read twice); the item bound holds under a source that keeps failing. \
-The injected error has one of 7 io::ErrorKinds (incl. UnexpectedEof, WouldBlock); kind and message must come back. Non-trivial: >= 1 successful item and >= 1 of {error returned, try_recover called, injected error}; distinct by (bytes, configuration, script).";
+Stage totality_deep_nesting: the same driver over documents nested 28-300 masters deep (recursive template specification or, 1 in 4, a generated one; innermost masters of unknown size, followed by a sibling at a drawn level; a third mutated). The injected error has one of 7 io::ErrorKinds (incl. UnexpectedEof, WouldBlock); kind and message must come back. Non-trivial: >= 1 successful item and >= 1 of {error returned, try_recover called, injected error}; distinct by (bytes, configuration, script).";
 
 pub const ASSUMPTIONS: &[&str] = &[
     "specifications are consistent (DynSpec by construction, RichSpec by the macro) — the documented precondition for not panicking",
